@@ -103,6 +103,19 @@ func (e1Engine) Gen(prop string, seed int64, tier string) *Plan {
 			p.Steps = append(p.Steps, Step{K: "schema", A: r.IntN(n), B: r.IntN(3), C: r.IntN(4)})
 		}
 	}
+	if p.Cfg["col"] == 1 {
+		// branchable collection: collection-level commits are delivered too (own stream of choices, so that
+		// the plans of the other configurations stay what they were)
+		rc := newRng(seed, 177)
+		var steps []Step
+		for _, st := range p.Steps {
+			steps = append(steps, st)
+			if chance(rc, 30) {
+				steps = append(steps, Step{K: "coldeliver", A: rc.IntN(n), C: rc.IntN(1 << 16), D: rc.IntN(4)})
+			}
+		}
+		p.Steps = steps
+	}
 	// final anti-entropy, two rounds in seeded order, then the convergence check
 	p.Steps = append(p.Steps, Step{K: "antientropy", A: r.IntN(1 << 16)})
 	p.Steps = append(p.Steps, Step{K: "antientropy", A: r.IntN(1 << 16)})
@@ -111,6 +124,15 @@ func (e1Engine) Gen(prop string, seed int64, tier string) *Plan {
 }
 
 // ---- model ------------------------------------------------------------------
+
+// mCol: a collection-level commit: links one document commit, parents are collection-level commits.
+type mCol struct {
+	Idx     int
+	C       cid.Cid
+	Origin  int
+	Doc     int // index of the document commit it links
+	Parents []int
+}
 
 type mCommit struct {
 	Idx     int
@@ -137,6 +159,9 @@ type e1Run struct {
 	byCid   map[string]int
 	// merged[node][doc] = set of commit idx (closed under ancestry)
 	merged  []map[int]map[int]bool
+	// collection-level commits of a branchable collection (one per document write) and, per node, the merged ones
+	colCommits []*mCol
+	colMerged  []map[int]bool
 	docIDs  map[int]string // slot -> docID
 	slotOf  map[string]int
 	props   map[string]bool
@@ -218,6 +243,7 @@ func (r *e1Run) run() {
 		}
 		r.nodes = append(r.nodes, nd)
 		r.merged = append(r.merged, map[int]map[int]bool{})
+		r.colMerged = append(r.colMerged, map[int]bool{})
 	}
 	defer func() {
 		for _, nd := range r.nodes {
@@ -295,6 +321,15 @@ func (r *e1Run) exec(i int, s Step) {
 			k = mod(s.C, (len(r.commits)+1)/2)
 		}
 		r.deliver(i, r.commits[k], mod(s.A, n))
+	case "coldeliver":
+		if len(r.colCommits) == 0 {
+			return
+		}
+		k := mod(s.C, len(r.colCommits))
+		if s.D == 0 && len(r.colCommits) > 2 { // bias: old commits
+			k = mod(s.C, (len(r.colCommits)+1)/2)
+		}
+		r.deliverCol(i, r.colCommits[k], mod(s.A, n))
 	case "sync":
 		r.syncHeads(i, mod(s.A, n), mod(s.B, n))
 	case "antientropy":
@@ -645,6 +680,32 @@ func (r *e1Run) collectLocal(step, node, slot int, writes map[string]string, inc
 		r.res.HarnessErr = fmt.Sprintf("step %d: local operation produced no update event", step)
 		return nil
 	}
+	defer func() {
+		// the collection-level commit of the same write (branchable collections)
+		for k := range ups {
+			if u := ups[k]; u.DocID == "" && u.Cid.Defined() {
+				if di, ok := r.byCid[docUp.Cid.String()]; ok {
+					var parents []int
+					for c := range r.colMerged[node] {
+						isParent := true
+						for o := range r.colMerged[node] {
+							if o != c && containsInt(r.colCommits[o].Parents, c) {
+								isParent = false
+							}
+						}
+						if isParent {
+							parents = append(parents, c)
+						}
+					}
+					sort.Ints(parents)
+					mc := &mCol{Idx: len(r.colCommits), C: u.Cid, Origin: node, Doc: di, Parents: parents}
+					r.colCommits = append(r.colCommits, mc)
+					r.colMerged[node][mc.Idx] = true
+					r.res.Stats["collection_level_commits"]++
+				}
+			}
+		}
+	}()
 	r.scanPayload(node, "update-notification", docUp.Block)
 	set := r.mset(node, slot)
 	parents := r.maximal(set, nil)
@@ -1155,3 +1216,59 @@ func (r *e1Run) headsView(node int) string {
 }
 
 // stubs filled in by other files (C03, C04, C11, C19)
+
+func containsInt(xs []int, x int) bool {
+	for _, y := range xs {
+		if y == x {
+			return true
+		}
+	}
+	return false
+}
+
+func (r *e1Run) colAncestors(c int, into map[int]bool) {
+	if into[c] {
+		return
+	}
+	into[c] = true
+	for _, p := range r.colCommits[c].Parents {
+		r.colAncestors(p, into)
+	}
+}
+
+// deliverCol merges a collection-level commit on a node that has already merged (document by document) every
+// document commit the collection-level commit and its ancestors link: the merge then has nothing to add to any
+// document, and must leave documents and their heads as they are.
+func (r *e1Run) deliverCol(step int, mc *mCol, to int) {
+	anc := map[int]bool{}
+	r.colAncestors(mc.Idx, anc)
+	for a := range anc {
+		dc := r.commits[r.colCommits[a].Doc]
+		if !r.mset(to, dc.Doc)[dc.Idx] {
+			r.res.logf("step %d coldeliver col#%d -> n%d skipped (document commit#%d not merged there)", step, mc.Idx, to, dc.Idx)
+			return
+		}
+	}
+	from, target := r.nodes[mc.Origin], r.nodes[to]
+	if err := r.copyBlocks(from, target, mc.C, map[string]bool{}); err != nil {
+		r.res.HarnessErr = fmt.Sprintf("step %d copy blocks: %v", step, err)
+		return
+	}
+	was := r.colMerged[to][mc.Idx]
+	err := safeMerge(target, event.Merge{DocID: "", Cid: mc.C, CollectionID: r.colID})
+	r.res.logf("step %d deliver collection commit col#%d (links commit#%d) -> n%d (redelivery=%v) err=%v", step, mc.Idx, mc.Doc, to, was, err)
+	if err != nil {
+		r.res.violate(r.pid("C01"), "merge-failed", "merge-failed/"+errClass(err)+"/collection-level", step,
+			"merge of collection-level commit col#%d on node %d failed: %v", mc.Idx, to, err)
+		return
+	}
+	for a := range anc {
+		r.colMerged[to][a] = true
+	}
+	r.res.Stats["collection_level_deliveries"]++
+	synctest.Wait()
+	target.TakeUpdates()
+	target.TakeMerges()
+	r.checkNode(step, to, fmt.Sprintf("delivery of collection-level commit col#%d to n%d", mc.Idx, to))
+	r.checkDAG(step, to, "delivery of a collection-level commit")
+}
